@@ -193,11 +193,14 @@ pub fn gate(point: &str, fields: &[(&str, &dyn VJson)]) {
         let _ = nix::unistd::mkfifo(&ack, nix::sys::stat::Mode::from_bits_truncate(0o600));
     }
     let mut line = String::with_capacity(128);
-    let _ = write!(line, "{} {} {{", pid, point);
-    for (i, (k, v)) in fields.iter().enumerate() {
-        if i > 0 {
-            line.push(',');
-        }
+    let _ = write!(line, "{} {} {{\"comm\":", pid, point);
+    env::args()
+        .next()
+        .map(|a| a.rsplit('/').next().unwrap_or("").to_string())
+        .unwrap_or_default()
+        .vjson(&mut line);
+    for (k, v) in fields.iter() {
+        line.push(',');
         k.vjson(&mut line);
         line.push(':');
         v.vjson(&mut line);
